@@ -85,6 +85,10 @@ EXPLANATION += (
     " Round 10: the sparse readers do not place values by pointer scatter (rule of C05); positions found in the label array of a chunk are positions of the chunk's rows (R-SPACE/chunk-row-positions)."
 )
 
+EXPLANATION += (
+    ' Round 11: output rows are numbered from all leaves of the tree (R-COVER/row-per-leaf).'
+)
+
 RULE_TEXT = (
     "one obligation per key of each producer, per required read, per "
     "merge loop, per statistic, per use of the row index")
@@ -1218,7 +1222,17 @@ def check_row_per_leaf(ctx, rule='R-COVER/row-per-leaf'):
                     == 'enumerate'):
                 continue
             tgt = node.ast.targets[0]
-            if not (isinstance(tgt, ast.Name) and 'row' in tgt.id):
+            if not isinstance(tgt, ast.Name):
+                continue
+            # the table that is handed on as `cluster_to_output_row=` (the
+            # callee's parameter name, not the local's, identifies it)
+            handed = any(
+                isinstance(c, ast.Call) and any(
+                    k.arg and 'output_row' in k.arg and isinstance(
+                        k.value, ast.Name) and k.value.id == tgt.id
+                    for k in c.keywords)
+                for c in ast.walk(fi.node))
+            if not handed:
                 continue
             n += 1
             src = v.generators[0].iter.args[0]
